@@ -22,6 +22,7 @@ import (
 type G struct {
 	Name  string
 	Node  *Node
+	w     *World
 	spawn int
 	id    int64
 }
@@ -109,7 +110,7 @@ func Go(fn func()) {
 
 // GoNamed starts fn on a goroutine attributed to node with a fixed name.
 func GoNamed(node *Node, name string, fn func()) {
-	g := &G{Name: name, Node: node}
+	g := &G{Name: name, Node: node, w: Cur()}
 	go func() {
 		register(g)
 		defer unregister(g)
@@ -143,7 +144,7 @@ func crashed(g *G, r interface{}) {
 
 // RunAs registers the calling goroutine under (node,name) for the duration of fn.
 func RunAs(node *Node, name string, fn func()) {
-	g := &G{Name: name, Node: node}
+	g := &G{Name: name, Node: node, w: Cur()}
 	register(g)
 	defer unregister(g)
 	fn()
@@ -157,12 +158,12 @@ func enter() *G {
 }
 
 func enterG(g *G) {
-	if g == nil || g.Node == nil {
+	if g == nil || g.w == nil {
 		return
 	}
-	w := g.Node.w
+	w := g.w
 	w.mu.Lock()
-	dead := g.Node.dead
+	dead := w.closed || (g.Node != nil && g.Node.dead)
 	w.mu.Unlock()
 	if dead {
 		parkForever(w)
@@ -233,11 +234,15 @@ type World struct {
 	Log         func(format string, a ...interface{})
 	KeysPerm    bool // permute map iteration order (seeded) instead of plain sorted order
 
-	Fatals []string
-	Panics []string
-	Trace  []string // compact event log for determinism checks
+	Fatals  []string
+	Panics  []string
+	Trace   []string // compact event log for determinism checks
 	TraceOn bool
-	Steps  int
+	Steps   int
+
+	closed   bool
+	timers   map[int]*tracked
+	timerSeq int
 }
 
 var (
@@ -262,8 +267,13 @@ func NewWorld(seed uint64, wait func()) *World {
 	return w
 }
 
-// Close deactivates the world.
+// Close deactivates the world: all tracked timers stop and every registered
+// goroutine parks at its next simrt entry, so the bubble can end.
 func (w *World) Close() {
+	w.mu.Lock()
+	w.closed = true
+	w.stopTimersLocked(nil, true)
+	w.mu.Unlock()
 	wmu.Lock()
 	if cur == w {
 		cur = nil
